@@ -608,6 +608,9 @@ func VerifC05Recreate(h *verifrt.H) {
 		s.WriteTreasuresToFilesystem()
 	}
 	v2, e2 := h.Int64("value2"), h.Int64("expiry2")
+	if h.Choose("identicalToFirstVersion", 2) == 1 {
+		v2, e2 = v1, e1 // byte-identical record (the gob model keeps byte equality for identical terms)
+	}
 	set("a", v2, e2)
 	before := c05take(s, "a")
 	s.Close()
